@@ -119,6 +119,10 @@ type world struct {
 	markID   int
 	kinds    map[string]bool
 	special  bool // a function body uses a special layout
+	// emitted: the generated functions defined so far; callable: the ones generated bodies and init forms may call
+	emitted  map[string]bool
+	callable []proggen.FunSig
+	macros1  []string // macros of one argument defined so far
 	// noPkgContent: packages stay empty (A3: the load form of a package does not carry its content)
 	noPkgContent bool
 	instances    []string
@@ -144,6 +148,14 @@ type genericM struct {
 	// cnm: one method of the generic function already calls the next method. Nested call-next-method chains are kept
 	// out: variable lookup through the scopes of nested method calls is exponential in the depth (a matter of C10).
 	cnm bool
+}
+
+// nameLetters: every global name carries a drawn letter before its number, so that the alphabetical order of the names
+// (what snapshot sorts by) is independent of the order of definition and of inheritance. No n: zpn<k> is a nickname.
+const nameLetters = "abmyz"
+
+func (w *world) letter() string {
+	return string(nameLetters[rapid.IntRange(0, len(nameLetters)-1).Draw(w.t, "letter")])
 }
 
 func (w *world) pick(label string, n int) int { return rapid.IntRange(0, n-1).Draw(w.t, label) }
@@ -177,14 +189,34 @@ func fixMark(src string) string { return strings.ReplaceAll(src, "vt:mark", "mar
 
 func (w *world) defVar() {
 	w.nvar++
-	name := fmt.Sprintf("zv%d", w.nvar)
+	name := fmt.Sprintf("zv%s%d", w.letter(), w.nvar)
 	kind := []string{"defvar", "defvar", "defparameter"}[w.pick("varkind", 3)]
 	var val string
-	k := w.pick("varval", 5)
+	k := w.pick("varval", 6)
 	if k == 4 && len(w.flavors)+len(w.classes) == 0 {
 		k = 2
 	}
+	var initCall string
+	if k == 5 {
+		// the init form calls a function of the session that is complete (everything it may call is defined)
+		for i, sg := range w.callable {
+			ok := w.emitted[sg.Name]
+			for _, callee := range w.callable[i+1:] {
+				ok = ok && w.emitted[callee.Name]
+			}
+			if ok {
+				initCall = "(" + sg.Name + strings.Repeat(" 2", sg.Arity) + ")"
+			}
+		}
+		if initCall == "" {
+			k = 0
+		}
+	}
 	switch k {
+	case 5:
+		val = initCall
+		w.intVars = append(w.intVars, name)
+		w.g.GlobalVars = append(w.g.GlobalVars, name)
 	case 4:
 		// an instance of a flavor or class of the session, some slots changed
 		var cls string
@@ -230,7 +262,7 @@ func (w *world) defVar() {
 
 func (w *world) defConst() {
 	w.nconst++
-	name := fmt.Sprintf("zk%d", w.nconst)
+	name := fmt.Sprintf("zk%s%d", w.letter(), w.nconst)
 	val := lispText(genSessionValue(w.t, 1))
 	src := "(defconstant " + name + " " + val
 	if d := w.doc(); d != "" {
@@ -275,6 +307,11 @@ func (w *world) defun(i int) {
 			}
 			w.probes = append(w.probes, call+")")
 		}
+	case len(w.macros1) > 0 && w.pick("usemacro", 3) == 0:
+		// a function whose body is expanded from a macro of the session
+		m := w.macros1[w.pick("whichmacro", len(w.macros1))]
+		w.add("defun", sig.Name, "(defun "+sig.Name+" (a) (list ("+m+" a) a))")
+		w.probes = append(w.probes, "("+sig.Name+" 3)")
 	default:
 		ll := lambdaLists[w.pick("lambdalist", len(lambdaLists))]
 		src := "(defun " + sig.Name + " " + ll.params
@@ -289,7 +326,7 @@ func (w *world) defun(i int) {
 
 func (w *world) defMacro() {
 	w.nmacro++
-	name := fmt.Sprintf("zm%d", w.nmacro)
+	name := fmt.Sprintf("zm%s%d", w.letter(), w.nmacro)
 	var src, probe string
 	switch w.pick("macro", 4) {
 	case 0:
@@ -306,13 +343,19 @@ func (w *world) defMacro() {
 		probe = "(" + name + " (+ 1 2) foo)"
 	}
 	w.add("defmacro", name, src)
+	if strings.Contains(src, " (x) ") {
+		w.macros1 = append(w.macros1, name)
+	}
 	w.probes = append(w.probes, probe)
 }
 
 var flavorVarPool = []string{"a", "b", "c", "d"}
 
-func (w *world) defFlavor() *flavorM {
-	f := &flavorM{name: fmt.Sprintf("zfl%d", len(w.flavors)+1)}
+func (w *world) defFlavor() *flavorM { return w.defFlavorFrom(nil, false) }
+
+// defFlavorFrom defines a flavor; with forced the given parents are used instead of drawn ones.
+func (w *world) defFlavorFrom(forcedParents []*flavorM, forced bool) *flavorM {
+	f := &flavorM{name: fmt.Sprintf("zfl%s%d", w.letter(), len(w.flavors)+1)}
 	// n is always there and holds an integer, so that method bodies can compute with it
 	varText := []string{fmt.Sprintf("(n %d)", w.pick("ndef", 9))}
 	f.vars = []string{"n"}
@@ -333,7 +376,12 @@ func (w *world) defFlavor() *flavorM {
 		}
 	}
 	var parents []string
-	if len(w.flavors) > 0 && w.pick("inherit", 2) == 0 {
+	if forced {
+		for _, p := range forcedParents {
+			f.parents = append(f.parents, p)
+			parents = append(parents, p.name)
+		}
+	} else if len(w.flavors) > 0 && w.pick("inherit", 3) > 0 {
 		p := w.flavors[w.pick("parent", len(w.flavors))]
 		f.parents = append(f.parents, p)
 		parents = append(parents, p.name)
@@ -462,10 +510,17 @@ func (w *world) flavorProbes() {
 	}
 }
 
-func (w *world) defClass() {
-	c := &classM{name: fmt.Sprintf("zc%d", len(w.classes)+1)}
+func (w *world) defClass() *classM { return w.defClassFrom(nil, false) }
+
+// defClassFrom defines a class; with forced the given superclasses are used instead of drawn ones.
+func (w *world) defClassFrom(forcedSupers []*classM, forced bool) *classM {
+	c := &classM{name: fmt.Sprintf("zc%s%d", w.letter(), len(w.classes)+1)}
 	var supers []string
-	if len(w.classes) > 0 && w.pick("super", 2) == 0 {
+	if forced {
+		for _, sc := range forcedSupers {
+			supers = append(supers, sc.name)
+		}
+	} else if len(w.classes) > 0 && w.pick("super", 3) > 0 {
 		supers = append(supers, w.classes[w.pick("superc", len(w.classes))].name)
 	}
 	var slots []string
@@ -518,6 +573,35 @@ func (w *world) defClass() {
 	}
 	w.add("defclass", c.name, src+")")
 	w.classes = append(w.classes, c)
+	return c
+}
+
+// hierarchy defines 3 or 4 flavors or classes at once, as a chain or (4) a diamond. Together with the drawn name
+// letters this gives hierarchies of depth 3-4 whose alphabetical order is unrelated to the inheritance order.
+func (w *world) hierarchy(flavor bool) {
+	diamond := w.pick("diamond", 3) == 0
+	n := 3 + w.pick("chainlen", 2)
+	if flavor {
+		top := w.defFlavorFrom(nil, true)
+		if diamond {
+			l, r := w.defFlavorFrom([]*flavorM{top}, true), w.defFlavorFrom([]*flavorM{top}, true)
+			w.defFlavorFrom([]*flavorM{l, r}, true)
+			return
+		}
+		for i := 1; i < n; i++ {
+			top = w.defFlavorFrom([]*flavorM{top}, true)
+		}
+		return
+	}
+	top := w.defClassFrom(nil, true)
+	if diamond {
+		l, r := w.defClassFrom([]*classM{top}, true), w.defClassFrom([]*classM{top}, true)
+		w.defClassFrom([]*classM{l, r}, true)
+		return
+	}
+	for i := 1; i < n; i++ {
+		top = w.defClassFrom([]*classM{top}, true)
+	}
 }
 
 func (w *world) classProbes() {
@@ -541,7 +625,7 @@ func (w *world) classProbes() {
 var specPool = []string{"fixnum", "integer", "number", "string", "symbol", "t", "list"}
 
 func (w *world) defGeneric() *genericM {
-	g := &genericM{name: fmt.Sprintf("zg%d", len(w.generics)+1), arity: 1 + w.pick("garity", 2)}
+	g := &genericM{name: fmt.Sprintf("zg%s%d", w.letter(), len(w.generics)+1), arity: 1 + w.pick("garity", 2)}
 	params := []string{"x", "y"}[:g.arity]
 	src := "(defgeneric " + g.name + " (" + strings.Join(params, " ") + ")"
 	if d := w.doc(); d != "" {
@@ -624,11 +708,15 @@ func (w *world) genericProbes() {
 
 func (w *world) defPackage() {
 	n := len(w.pkgs) + 1
-	name := fmt.Sprintf("zp%d", n)
+	name := fmt.Sprintf("zp%s%d", w.letter(), n)
 	src := "(defpackage \"" + name + "\""
 	uses := []string{"\"cl\""}
-	if len(w.pkgs) > 0 && w.pick("pkguse", 2) == 0 {
-		uses = append(uses, "\""+w.pkgs[w.pick("pkgused", len(w.pkgs))]+"\"")
+	if len(w.pkgs) > 0 && w.pick("pkguse", 3) > 0 {
+		first := w.pick("pkgused", len(w.pkgs))
+		uses = append(uses, "\""+w.pkgs[first]+"\"")
+		if second := w.pick("pkgused2", len(w.pkgs)); second != first && w.pick("pkguse2", 2) == 0 {
+			uses = append(uses, "\""+w.pkgs[second]+"\"")
+		}
 	}
 	// a package that gets a function uses cl: the function is written by snapshot after (in-package ...), where its
 	// body must find let, + and list
@@ -667,7 +755,7 @@ func (w *world) defPackage() {
 }
 
 func newWorld(t *rapid.T) *world {
-	w := &world{t: t, kinds: map[string]bool{}}
+	w := &world{t: t, kinds: map[string]bool{}, emitted: map[string]bool{}}
 	w.g = proggen.New(t, progOpts(), "")
 	return w
 }
@@ -697,7 +785,7 @@ func genWorldIn(w *world, n int, kinds []string) *world {
 	}
 	for i := 0; i < nf; i++ {
 		arity := rapid.IntRange(0, 2).Draw(t, "arity")
-		w.sigs = append(w.sigs, proggen.FunSig{Name: fmt.Sprintf("zf%d", i+1), Arity: arity})
+		w.sigs = append(w.sigs, proggen.FunSig{Name: fmt.Sprintf("zf%s%d", w.letter(), i+1), Arity: arity})
 	}
 	// functions with a generated lambda list are not callable from generated bodies: announce them with arity 0 and keep
 	// them out of the call graph
@@ -736,6 +824,10 @@ func genWorldIn(w *world, n int, kinds []string) *world {
 			w.defMacro()
 		case "defflavor":
 			w.defFlavor()
+		case "flavor-hierarchy":
+			w.hierarchy(true)
+		case "class-hierarchy":
+			w.hierarchy(false)
 		case "flavor-method":
 			w.flavorMethod()
 		case "defclass":
@@ -800,6 +892,8 @@ func (w *world) sigsDefun(k int, callable []proggen.FunSig) {
 	w.sigs = callable
 	w.defun(k)
 	w.sigs = saved
+	w.callable = callable
+	w.emitted[callable[k].Name] = true
 }
 
 func seq(n int) []int {
@@ -811,7 +905,8 @@ func seq(n int) []int {
 }
 
 var allKinds = []string{"defvar", "defvar", "defconstant", "defun", "defun", "defun", "defmacro", "defflavor", "flavor-method",
-	"flavor-method", "defclass", "defgeneric", "generic-method", "generic-method", "defpackage"}
+	"flavor-method", "defclass", "defgeneric", "generic-method", "generic-method", "defpackage", "defpackage", "flavor-hierarchy",
+	"class-hierarchy"}
 
 func genSnapCase(t *rapid.T) SnapCase {
 	w := genWorld(t, rapid.IntRange(5, 25).Draw(t, "nforms"), allKinds)
